@@ -249,7 +249,7 @@ Section Find.
   Lemma find_list_subl l query sort skip limit r :
     find_list matchf l query sort skip limit = Ok r -> subl r l.
   Proof.
-    unfold find_list. cbv zeta. intro H.
+    unfold find_list. cbv zeta. intro H. destruct (skip <? 0); [discriminate|].
     match type of H with bind ?X _ = _ => destruct X as [sorted| | | |] eqn:Hs end;
       cbn [bind] in H; try discriminate.
     assert (Hp : Permutation l sorted).
@@ -258,7 +258,7 @@ Section Find.
       inversion Hs; subst. apply Permutation_sym. apply stable_sort_perm. }
     match type of H with bind ?X _ = _ => destruct X as [sel| | | |] eqn:Hsel end;
       cbn [bind] in H; try discriminate.
-    destruct (skip <? 0); [discriminate|]. inversion H; subst.
+    inversion H; subst.
     eapply subl_trans; [apply drop_subl|].
     eapply subl_trans; [|apply subl_perm; exact Hp].
     unfold select in Hsel. eapply select_go_subl; eauto.
